@@ -51,6 +51,12 @@ checks = {
  "C18": dict(harness="hcore", design="§6 C18",
    text='Whole-core simulation with crash (incarnation frozen at a drawn decision; only simconsul and simmesos survive) and restart, or subscription drop and re-subscribe; oracles: same framework identity after restart, every surviving task of the previous life killed, no environment listed; reconciliation after a mere reconnection kills nothing owned and changes no state.',
    note='simmesos/simconsul are models; RPC methods are invoked on the RpcServer object; one OS process per run; violations are confirmed by replay in a fresh process (tapes not shrunk).'),
+ "C05": dict(harness="hcore", design="§6 C05",
+   text='Whole-core simulation over generated clusters (attributes, scarce scalars, fragmented ports) and workflows with constraints at every level; the simulated master validates every ACCEPT as Mesos does and the harness checks constraints (reference merge), wants, static ports and that unused offers are declined; input generation is coupled with the concurrent per-offer matching goroutines under seeded schedules.',
+   note='simmesos/simconsul are models; one OS process per run; violations are confirmed by replay in a fresh process.'),
+ "C13": dict(harness="hcore", design="§6 C13",
+   text="Whole-core simulation of workflows with bind/connect declarations (role paths, aliases, explicit and dangling targets, tcp/ipc, transports); the oracle relates the CONFIGURE arguments received by the simulated executors to the ports the simulated master saw allocated: outbound address = binder's host + binder's bound port, transport of the inbound side, invalid configurations rejected.",
+   note='simmesos/simconsul are models; one OS process per run; violations are confirmed by replay in a fresh process.'),
 }
 
 na = {
